@@ -210,6 +210,11 @@ class Fn:
             if pc or pa or pb or tc != "bool" or ta != tb:
                 bad(node, "conditional expression outside the white-list")
             return [], "(if %s then %s else %s)" % (c, a, b), ta
+        if isinstance(node, ast.UnaryOp) and isinstance(node.op, ast.Not):
+            p, c, tc = self.expr(node.operand, env)
+            if p or tc != "bool":
+                bad(node, "`not` of a %s" % (tc,))
+            return [], "(negb %s)" % c, "bool"
         if isinstance(node, ast.Compare):
             if len(node.ops) != 1:
                 bad(node, "chained comparison")
